@@ -40,10 +40,18 @@ func coYield(L *LState) int {
 }
 
 func coResume(L *LState) int {
-	th := L.CheckThread(1)
+	return resumeThread(L, L.CheckThread(1), false)
+}
+
+// resumeThread resumes th (at stack position 1, followed by the values to pass). raise selects how
+// the outcome is reported: coroutine.resume returns (true, values...) or (false, message), a
+// function made by coroutine.wrap returns the values and raises the message. The mode belongs to
+// this resume, not to the thread: the handle of a wrapped coroutine (coroutine.running()) can be
+// given to coroutine.resume as well.
+func resumeThread(L *LState, th *LState, raise bool) int {
 	if L.G.CurrentThread == th {
 		msg := "can not resume a running thread"
-		if th.wrapped {
+		if raise {
 			L.RaiseError(msg)
 			return 0
 		}
@@ -53,7 +61,7 @@ func coResume(L *LState) int {
 	}
 	if th.Dead {
 		msg := "can not resume a dead thread"
-		if th.wrapped {
+		if raise {
 			L.RaiseError(msg)
 			return 0
 		}
@@ -65,7 +73,7 @@ func coResume(L *LState) int {
 		// th is waiting for the running thread (directly or through other threads): resuming it
 		// would re-enter a thread that is in the middle of a resume
 		msg := "can not resume a normal thread"
-		if th.wrapped {
+		if raise {
 			L.RaiseError(msg)
 			return 0
 		}
@@ -78,11 +86,12 @@ func coResume(L *LState) int {
 		// what this resume passes and the coroutine is dead
 		th.kill()
 		L.Remove(1)
-		if !th.wrapped {
+		if !raise {
 			L.Insert(LTrue, 1)
 		}
 		return L.GetTop()
 	}
+	th.wrapped = raise // how the thread reports back until it suspends or ends again
 	th.Parent = L
 	L.G.CurrentThread = th
 	if !th.isStarted() {
@@ -137,8 +146,9 @@ func coStatus(L *LState) int {
 }
 
 func wrapaux(L *LState) int {
-	L.Insert(L.ToThread(UpvalueIndex(1)), 1)
-	return coResume(L)
+	th := L.ToThread(UpvalueIndex(1))
+	L.Insert(th, 1)
+	return resumeThread(L, th, true)
 }
 
 func coWrap(L *LState) int {
